@@ -170,6 +170,98 @@ func sortStrings(a []string) {
 	}
 }
 
+// caseBig: RandomizeTypes on a topology with MANY types (collisions, and collisions of the
+// redrawn id, only become likely with tens of thousands of types).  Too large for the
+// extracted association-list model (quadratic), so the relation is evaluated HERE (trusted
+// glue) and only the numbers are emitted:
+// (c14big n seq seed types_before types_after components resolved_changed duplicate_new_ids zero_key_after)
+func caseBig(n int, seq bool, seed uint64) {
+	rng := NewRng(seed)
+	t := &topology.Topology{Title: "big", TypeIndex: make(map[uint32]topology.TopologyHWcTypeDef, n)}
+	keys := make([]uint32, 0, n)
+	for len(keys) < n {
+		k := uint32(1 + rng.Intn(8*n+1000))
+		if _, ok := t.TypeIndex[k]; ok {
+			continue
+		}
+		i := len(keys)
+		d := topology.TopologyHWcTypeDef{W: 1 + i, H: i % 7, Desc: "t" + strconv.Itoa(i), In: poolStr["In"][i%len(poolStr["In"])]}
+		if i%5 == 0 {
+			d.Disp = &topology.TopologyHWcTypeDef_Display{W: 64 + i%3, H: 32, Subidx: -1}
+		}
+		t.TypeIndex[k] = d
+		keys = append(keys, k)
+	}
+	ncomp := 300 + rng.Intn(200)
+	for j := 0; j < ncomp; j++ {
+		h := topology.TopologyHWcomponent{Id: uint32(j + 1), X: j, Y: -j, Txt: "c" + strconv.Itoa(j)}
+		if rng.Intn(10) > 0 && n > 0 {
+			h.Type = keys[rng.Intn(n)]
+		}
+		if rng.Intn(4) == 0 {
+			h.TypeOverride = &topology.TopologyHWcTypeDef{W: rng.Intn(3) * 50, Out: []string{"", "rgb"}[rng.Intn(2)], Subidx: rng.Intn(3) - 1}
+		}
+		t.HWc = append(t.HWc, h)
+	}
+	fp := func(h *topology.TopologyHWcomponent) string {
+		d := t.GetTypeDefWithOverride(h)
+		var b strings.Builder
+		sx(&b, tdSx(&d))
+		return b.String()
+	}
+	stripped := func(h topology.TopologyHWcomponent) string {
+		h.Type = 0
+		var b strings.Builder
+		sx(&b, toSx(reflect.ValueOf(&h).Elem()))
+		return b.String()
+	}
+	before := make([]string, ncomp)
+	beforeStrip := make([]string, ncomp)
+	oldType := make([]uint32, ncomp)
+	for j := range t.HWc {
+		before[j] = fp(&t.HWc[j])
+		beforeStrip[j] = stripped(t.HWc[j])
+		oldType[j] = t.HWc[j].Type
+	}
+	typesBefore := len(t.TypeIndex)
+	panicked := false
+	func() {
+		defer func() {
+			if e := recover(); e != nil {
+				panicked = true
+			}
+		}()
+		t.RandomizeTypes(seq)
+	}()
+	changed, dup := 0, 0
+	if panicked || len(t.HWc) != ncomp {
+		changed = ncomp
+	} else {
+		newOf := map[uint32]uint32{} // new id -> old id, over the types the components use
+		for j := range t.HWc {
+			if fp(&t.HWc[j]) != before[j] || stripped(t.HWc[j]) != beforeStrip[j] {
+				changed++
+			}
+			if oldType[j] != 0 {
+				if o, ok := newOf[t.HWc[j].Type]; ok && o != oldType[j] {
+					dup++
+				}
+				newOf[t.HWc[j].Type] = oldType[j]
+			}
+		}
+	}
+	_, zero := t.TypeIndex[0]
+	if seq { // ids must be exactly 1..n: count the ones outside
+		for k := range t.TypeIndex {
+			if k < 1 || int(k) > typesBefore {
+				dup++
+			}
+		}
+	}
+	emit(L(Sym("c14big"), n, seq, seed, typesBefore, len(t.TypeIndex), ncomp, changed, dup, zero))
+	c14stats["big"]++
+}
+
 func replayC14(line string) {
 	silenceStdout()
 	n := parseSexp(line)
@@ -177,6 +269,13 @@ func replayC14(line string) {
 		return
 	}
 	t := &topology.Topology{}
+	switch n.Kids[0].Atom {
+	case "c14big":
+		if len(n.Kids) >= 4 {
+			caseBig(int(atoi64(n.Kids[1].Atom)), n.Kids[2].Atom != "0", uint64(atoi64(n.Kids[3].Atom)))
+		}
+		return
+	}
 	switch n.Kids[0].Atom {
 	case "clean":
 		fromSx(n.Kids[1], reflect.ValueOf(t).Elem())
@@ -336,6 +435,17 @@ func genC14(tier string, rng *Rng) {
 		}
 		hist["rand-nkeys-"+strconv.Itoa(min(nkeys, 20))]++
 	}
+
+	// ---- 2b. many types: collisions (and collisions of the redrawn id) become likely
+	bigs := []int{30000, 40000}
+	if thorough {
+		bigs = append(bigs, 200000, 35000)
+	}
+	for _, n := range bigs {
+		caseBig(n, false, rng.U64()>>1)
+		hist["rand-big-"+strconv.Itoa(n)]++
+	}
+	caseBig(20000, true, rng.U64()>>1)
 
 	// ---- 3. JSON round trips and the legacy parser
 	nJSON := 2500
